@@ -89,7 +89,7 @@ CHECKS.update({
     ),
     "C13": dict(
         engine="KeepAlive", category="model_checking",
-        text=('KeepAlive.tla models the ticker loop of startKeepalive with an explicit clock, an environment-chosen ping outcome script, the instant at which the peer completes the handshake (keep-alive starts in Connect, before it) and the fate of the context given to Connect (kept / cancelled after tick k); TLC checks Accuracy/Completeness (including sustained pinging while keep-alive is in force)/Timing/SilentStop/NoLeftovers exhaustively for all 5461 scripts over {answered, timed-out, method-not-found, connection-error} up to length 6 x thresholds x owner closing idle / with a ping in flight / while a handler keeps Close waiting, and for scripts up to length 4 x handshake after tick 1..4 or never x Connect context cancelled after tick 0..4, scripts <= 4 with one ping held by the session's own transport for 9/16, 1 1/16 or 2 1/16 intervals (explicit one-waiting-tick ticker semantics), owner closing while a ping is held with a tick waiting, and scripts <= 3 x how the pinging side's session was established (legacy initialize / initialize after a rejected server/discover / a version without ping) (865k states; thorough design check 3.07M), and exports all 152 996 cases; ping attempts are observed by a sending middleware; a leftover is decided by a goroutine dump, never by a goroutine count. Every behaviour runs on the real code under synctest (function level, real ServerSession, real legacy ClientSession against a scripted peer); the TLA+ monitor KeepAliveMon judges the virtual-time observations.'),
+        text=('KeepAlive.tla models the ticker loop of startKeepalive with an explicit clock, an environment-chosen ping outcome script, the instant at which the peer completes the handshake (keep-alive starts in Connect, before it) and the fate of the context given to Connect (kept / cancelled after tick k); TLC checks Accuracy/Completeness (including sustained pinging while keep-alive is in force)/Timing/SilentStop/NoLeftovers exhaustively for all 5461 scripts over {answered, timed-out, method-not-found, connection-error} up to length 6 x thresholds x owner closing idle / with a ping in flight / while a handler keeps Close waiting, and for scripts up to length 4 x handshake after tick 1..4 or never x Connect context cancelled after tick 0..4, scripts <= 4 with one ping held by the transport of the session itself for 9/16, 1 1/16 or 2 1/16 intervals (explicit one-waiting-tick ticker semantics), owner closing while a ping is held with a tick waiting, and scripts <= 3 x how the session of the pinging side was established (legacy initialize / initialize after a rejected server/discover / a version without ping) (865k states; thorough design check 3.07M), and exports all 152 996 cases; ping attempts are observed by a sending middleware; a leftover is decided by a goroutine dump, never by a goroutine count. Every behaviour runs on the real code under synctest (function level, real ServerSession, real legacy ClientSession against a scripted peer); the TLA+ monitor KeepAliveMon judges the virtual-time observations.'),
         design_ref="DESIGN.md section 6 C13",
         note="Trusted: TLC; testing/synctest virtual time; the scripted peer/Connection; the goroutine-dump census (and the goroutine-count heuristic deciding when to take it); script length <= 6. The real-time watchdog and process restart of the harness (a go1.25.0 synctest bubble can, rarely, spin inside the runtime); script length <= 4 for the handshake and context dimensions.",
         technique="TLA+ spec + TLC exhaustive; exhaustive replay of TLC-generated cases into real code with quiescence/leak check; TLA+ monitor",
